@@ -2,7 +2,7 @@
     (instance [RF] of the generic theorems of SpreadP.v; every float is a real). *)
 From Coq Require Import Reals Lra Psatz ZArith Lia.
 From Inovesa Require Import Base.FieldKit Base.RInst Base.Sums Gen.Gen_FPStencil Model.FokkerPlanck
-  Proofs.FokkerPlanckP Proofs.SpreadP.
+  Proofs.FPGridP Proofs.FokkerPlanckP Proofs.FPMomentsP Proofs.SpreadP.
 Local Open Scope R_scope.
 
 Ltac runf := cbv [fadd fmul fsub fopp fdiv finv f0 f1 car RF two opt] in *.
